@@ -2,6 +2,7 @@ package main
 
 import (
 	"fmt"
+	"regexp"
 	"strings"
 
 	"golang.org/x/net/html"
@@ -30,6 +31,8 @@ func init() {
 		Run: runC05,
 	})
 }
+
+var rxRawMarkup = regexp.MustCompile(`(?i)<(script|style)\b|<[a-z][^>]*\s(on[a-z]+|id|class|style)\s*=`)
 
 func runC05(c *Ctx, idx int) {
 	ar, ok := c.c04Doc(idx, true)
@@ -75,6 +78,20 @@ func runC05(c *Ctx, idx int) {
 		report := func(sig, text string) {
 			c.Violation(sig, text, ar.witness(map[string]any{"element": trunc(outer(n), 600)}))
 			bad = true
+		}
+		if n.Data == "noscript" {
+			// what the parser keeps of a noscript element is its markup as text; written into the
+			// output as it is, it is unsanitised markup for a reader without scripting
+			raw := ""
+			for ch := n.FirstChild; ch != nil; ch = ch.NextSibling {
+				if ch.Type == html.TextNode {
+					raw += ch.Data
+				}
+			}
+			if rxRawMarkup.MatchString(raw) {
+				report("raw-markup-in-noscript:"+pathKind(n), fmt.Sprintf("a <noscript> in the distilled HTML (inside %s) carries unsanitised markup as text: %q", pathKind(n), trunc(raw, 200)))
+				return false
+			}
 		}
 		if n.Data == "script" || n.Data == "style" {
 			report("element:"+n.Data+":"+pathKind(n), fmt.Sprintf("distilled HTML contains a <%s> element (inside %s)", n.Data, pathKind(n)))
